@@ -1,5 +1,6 @@
 import SJ.Proofs.TypedFuel
 import SJ.Proofs.TypedFault
+import SJ.Proofs.TypedPrefixInt
 /-!
 # The typed text deserializer model (`SJ.Model.Typed`): totality, fuel, and the typed clauses of
 # C10 / C13 / C16 that are stated over it
@@ -71,6 +72,43 @@ theorem c13_typed_fault (env : Env) (hf : env.flt = true) (s : Schema) (bs : Byt
   | io => exact .inl rfl
   | fuel => exact absurd h hfuel
 
+/-- **C10 (typed targets), every schema.** If the typed deserializer accepts a text, it accepts every prefix of
+    it or fails at the end of the prefix with an `Eof`-classified error — or with `NumberOutOfRange`, the one
+    exception the proof forces (`_partial`): a prefix that ends in a complete number literal whose value is not a
+    finite float (`1` followed by 400 zeros, although `…e-395` is accepted) is rejected as out of range; inherent to
+    the number-range rule for `f64` / `f32` / `Value` targets (open finding C10-out-of-range-number-prefix); for the
+    other targets it is excluded by `c10_typed_prefix` below. Every configuration and source (clean end of input).
+    In particular no Syntax code of a truncation site survives: `InvalidNumber` (128-bit `-`), `ExpectedNumericKey` /
+    `ExpectedDoubleQuote` (quoted numeric keys cut short), `ExpectedSomeIdent` (bool keys), `TrailingCharacters`. -/
+theorem c10_typed_prefix_partial (env : Env) (hflt : env.flt = false) (s : Schema) (bs : Bytes) (k : Nat) (v : TVal)
+    (h : deTypedTop env s bs = .ok v) :
+    (∃ v', deTypedTop env s (bs.take k) = .ok v') ∨
+    (∃ c, deTypedTop env s (bs.take k) = .err c (bs.take k).length ∧ (classify c = .eof ∨ c = .NumberOutOfRange)) := by
+  let A : Code → Prop := fun c => classify c = .eof ∨ c = .NumberOutOfRange
+  have hAe : ∀ c, classify c = .eof → A c := fun c h => .inl h
+  have hAn : A .NumberOutOfRange := .inr rfl
+  have hpre := (pre_deTyped (A := A) (b := bs.drop k) (N := (bs.take k).length) hflt hAe hAn (intPre hflt hAe hAn)
+    (Schema.size s + 1) s (by omega) 0).1 (bs.take k) 0 (by omega)
+  rw [List.take_append_drop] at hpre
+  unfold deTypedTop at h ⊢
+  cases hfull : deTyped env (Schema.size s + 1) 0 s bs 0 with
+  | ok x rest pos =>
+    rw [hfull] at h hpre
+    simp only at h
+    generalize deTyped env (Schema.size s + 1) 0 s (bs.take k) 0 = pre at hpre ⊢
+    cases hpre with
+    | same hp =>
+      rename_i r
+      -- the rest of the full text is whitespace: so is the rest of the prefix
+      rcases skipWs_append r (bs.drop k) pos with ⟨c, a', p, h1, h2⟩ | ⟨h1, h2⟩
+      · rw [h2] at h; simp at h
+      · simp only [h1, hflt]
+        exact .inl ⟨_, rfl⟩
+    | cut _ => simp [Stream.skipWs, hflt]
+    | eof hc => exact .inr ⟨_, rfl, hc⟩
+    | fail hf => exact absurd rfl (hf _ _ _)
+  | _ => rw [hfull] at h; simp at h
+
 /-- Bool-valued tests on outcomes (for kernel-evaluated examples) -/
 def Top.isOk (o : Top) (v : TVal) : Bool := match o with | .ok v' => v' == v | _ => false
 def Top.isErr (o : Top) (c : Code) (idx : Nat) : Bool := match o with | .err c' i => c' == c && i == idx | _ => false
@@ -96,5 +134,14 @@ example : Top.isErr (deTypedTop { src := .reader, flt := true } (.seq (.int .u8)
   decide +kernel
 example : Top.isErr (deTypedTop { src := .reader, flt := true } (.tuple [.int .u8]) [0x5b, 0x31, 0x2c]) .TrailingCharacters 3 = true := by
   decide +kernel
+
+-- `{"12":true}` as a map with `u8` keys is accepted; cut inside the key (`{"12`, `{"1`, `{"`) it is `Eof` at the end
+-- (these were Syntax errors before fix 50d9fce), and the 128-bit `-17` cut after `-` likewise
+example : Top.isOk (deTypedTop {} (.map (.int .u8) .bool) [0x7b, 0x22, 0x31, 0x32, 0x22, 0x3a, 0x74, 0x72, 0x75, 0x65, 0x7d])
+    (.map [(.int 12, .bool true)]) = true := by decide +kernel
+example : Top.isErr (deTypedTop {} (.map (.int .u8) .bool) [0x7b, 0x22, 0x31, 0x32]) .EofWhileParsingString 4 = true := by decide +kernel
+example : Top.isErr (deTypedTop {} (.map (.int .u8) .bool) [0x7b, 0x22]) .EofWhileParsingString 2 = true := by decide +kernel
+example : Top.isErr (deTypedTop {} (.int .i128) [0x2d]) .EofWhileParsingValue 1 = true := by decide +kernel
+example : Top.isErr (deTypedTop {} (.map .bool .bool) [0x7b, 0x22, 0x74, 0x72]) .EofWhileParsingValue 4 = true := by decide +kernel
 
 end SJ.Props.Typed
